@@ -342,6 +342,10 @@ def run(ck):
     ck.assume('a retransmission whose sender entered the send section before the answer was processed is tolerated '
               '(decision taken before the answer); one at exactly the instant the obligation ends is tolerated (tie)')
     ck.assume('virtual time: a running library thread is infinitely fast relative to timers at other instants')
+    # which links need retransmission is announced by the radio driver (needs_resending = safelink not confirmed): every
+    # sequence of three driver-thread starts on one RadioDriver object (the check written for C01 drives the real thread)
+    from vf.checks import c01 as _c01
+    ck.pmap(_c01.part_restart, [None])
     cs = configs(ck.quick)
     r = explore(ck, exec_c10, cs, 1)
     ck.note('exploration_one_deviation', r)
